@@ -669,3 +669,46 @@ class Builder:
 def gen_valid(rng, params: Optional[Params] = None) -> Tuple[Dict[str, List[Any]], Builder]:
     b = Builder(rng, params)
     return b.build(), b
+
+
+# --------------------------------------------------------------------------------------
+# dotted references whose HEAD is shadowed by a nested message of an enclosing message
+# --------------------------------------------------------------------------------------
+
+def head_shadow(rng, variant: Optional[str] = None, py_safe: bool = False):
+    """Returns (files, top path, info).  A file-scope message `Geo` (or an import bound to the
+    name `ext`) and a message `Map` with its own nested message of the same name; both contain a
+    member `Unit` of DIFFERENT width; `Map` (and a message nested in it) refer to `Geo.Unit` /
+    `ext.T` by the dotted name: the nested one must win.  info names the items for rewrites."""
+    variant = variant or rng.choice(["message", "message", "import"])
+    w = rng.sample([2, 3, 5, 6, 7, 9, 11, 12, 13], 4)
+
+    def leaf(name, width, kind):
+        if kind == "enum":
+            return ["enum", None, name, ["uint", width], [["efield", None, "Z0", 0], ["efield", None, "Z1", (1 << width) - 1]]]
+        return ["msg", None, name, False, [["field", None, ["single", ["uint", width]], "v", 1]]]
+
+    kind = rng.choice(["enum", "msg"])
+    head, tail = ("Geo", "Unit") if variant == "message" else ("ext", "Tt")
+    nested = ["msg", None, head, False, [leaf(tail, w[1], kind)]]
+    deep = ["msg", None, "Deep", False, [["field", None, ["single", ["ref", [head, tail]]], "p", 1],
+                                         ["field", None, ["single", ["uint", w[2]]], "q", 2]]]
+    body = [nested, ["field", None, ["single", ["ref", [head, tail]]], "first", 1]]
+    if rng.random() < 0.7:
+        body += [deep, ["field", None, ["single", ["ref", ["Deep"]]], "deep", 3]]
+    body.append(["field", None, ["arr", ["ref", [head, tail]], ["lit", 2], False] if rng.random() < 0.5
+                 else ["single", ["uint", w[3]]], "tail_", 2])
+    mp = ["msg", None, "Map", rng.random() < 0.3, body]
+    files: Dict[str, List[Any]] = {}
+    if variant == "message":
+        top_def = ["msg", None, head, False, [leaf(tail, w[0], kind)]]
+        other = ["msg", None, "Other", False, [["field", None, ["single", ["ref", [head, tail]]], "o", 1]]]
+        files["rootp.bitproto"] = [["proto", None, "rootp"], top_def, other, mp]
+        info = dict(variant=variant, top_def=top_def, nested=nested, map=mp, head=head, tail=tail, imp=None)
+    else:
+        imp = ["import", None, "ext", "zlibq.bitproto"]
+        other = ["msg", None, "Other", False, [["field", None, ["single", ["ref", [head, tail]]], "o", 1]]]
+        files["rootp.bitproto"] = [["proto", None, "rootp"], imp, other, mp]
+        files["zlibq.bitproto"] = [["proto", None, "zlibq"], leaf(tail, w[0], kind)]
+        info = dict(variant=variant, top_def=None, nested=nested, map=mp, head=head, tail=tail, imp=imp)
+    return files, ["Map"], info
